@@ -647,7 +647,7 @@ class PixelAlgorithms(AccessorBase):
             else:
                 data = ops.autocorr_tyx(xx.data, nodata)
 
-            coords = {k: c for k, c in xx.coords.items() if k != "time"}
+            coords = {k: c for k, c in xx.coords.items() if "time" not in c.dims}
             return xarray.DataArray(data=data, dims=xx.dims[1:], coords=coords)
 
         return xarray.apply_ufunc(
